@@ -197,6 +197,45 @@ Proof.
   - destruct (term_lt a b) as [[|]|]; reflexivity.
 Qed.
 
+(* > , <= , >= when a term that is not a literal is involved *)
+Lemma term_gt_required : forall a b v, lt_required b a = Some v -> term_gt a b = Some v.
+Proof.
+  intros a b v H. unfold lt_required in H.
+  destruct a, b; simpl in *; try discriminate; inversion H; subst; clear H;
+    try reflexivity; try (rewrite ord_rank; reflexivity).
+Qed.
+
+Lemma term_eqv_required : forall a b v, lt_required a b = Some v -> term_eqv a b = Some (key_same a b).
+Proof.
+  intros a b v H. unfold lt_required in H.
+  destruct a, b; try discriminate; cbn [term_eqv]; rewrite ?term_eqb_key; reflexivity.
+Qed.
+
+Lemma lt_required_sym : forall a b v, lt_required a b = Some v -> exists w, lt_required b a = Some w.
+Proof.
+  intros a b v H. unfold lt_required in *. destruct a, b; simpl in *; try discriminate; eauto.
+Qed.
+
+Lemma op_entry_some : forall v, op_entry_ok (Some v) (cmp_of (Some v)) = true.
+Proof. destruct v; reflexivity. Qed.
+Lemma op_entry_none : forall o, op_entry_ok None (cmp_of o) = true.
+Proof. destruct o as [[|]|]; reflexivity. Qed.
+
+Lemma ops_entry_model : forall a b,
+  op_entry_ok (lt_required b a) (cmp_of (term_gt a b)) = true
+  /\ op_entry_lax (option_map (fun v => v || key_same a b) (lt_required a b)) (cmp_of (term_le a b)) = true
+  /\ op_entry_lax (option_map (fun v => v || key_same a b) (lt_required b a)) (cmp_of (term_ge a b)) = true.
+Proof.
+  intros a b. destruct (lt_required a b) as [v|] eqn:E1.
+  - destruct (lt_required_sym _ _ _ E1) as [w E2]. rewrite E2. cbn [option_map].
+    rewrite (term_gt_required _ _ _ E2). unfold term_le, term_ge.
+    rewrite (term_lt_required _ _ _ E1), (term_gt_required _ _ _ E2), (term_eqv_required _ _ _ E1).
+    unfold op_entry_lax. rewrite !op_entry_some. auto.
+  - assert (lt_required b a = None) as E2.
+    { destruct (lt_required b a) as [w|] eqn:E; auto. destruct (lt_required_sym _ _ _ E) as [x X]. congruence. }
+    rewrite E2. cbn [option_map op_entry_lax]. rewrite !op_entry_none. auto.
+Qed.
+
 (* ------------------------------------------------------------------ *)
 (* the matrices of the model *)
 
@@ -228,9 +267,9 @@ Qed.
 
 Ltac all_idx := apply forallb_forall; let i := fresh "i" in let H := fresh "Hi" in intros i H; apply in_idx in H.
 
-Theorem spec_base_model : forall c, kf c = 0 -> spec_base c (model_obs c) = true.
+Theorem spec_base_model : forall c, spec_base c (model_obs c) = true.
 Proof.
-  intros c Hk. unfold spec_base, model_obs. cbn [o_eq o_hash o_lt o_flags]. rewrite Hk. cbn [N.eqb forallb andb].
+  intros c. unfold spec_base, model_obs. cbn [o_eq o_hash o_lt o_flags]. cbn [forallb andb].
   set (ts := c_terms c).
   rewrite !shape_matrix, map_length, Nat.eqb_refl. cbn [andb].
   rewrite andb_true_r.
@@ -280,18 +319,6 @@ Definition olang_ltb (a b : option str) : bool :=
 Definition skey_ltb (l : option str) (lex : str) (l' : option str) (lex' : str) : bool :=
   olang_ltb l l' || (ostr_eqb l l' && str_ltb lex lex').
 
-(* the order the model computes for two literals of one family *)
-Definition mlt (a b : term) : bool :=
-  match a, b with
-  | Lit lex dt lang, Lit lex' dt' lang' =>
-      match lit_class lex dt lang, lit_class lex' dt' lang' with
-      | CInt x, CInt y => Z.ltb x y
-      | CStr, CStr => skey_ltb lang lex lang' lex'
-      | _, _ => false
-      end
-  | _, _ => false
-  end.
-
 Lemma string_not_integer : str_eqb xsd_string xsd_integer = false.
 Proof. vm_compute. reflexivity. Qed.
 
@@ -322,52 +349,6 @@ Proof. intros lex dt lang H E. subst. discriminate. Qed.
 Lemma lower_nil : forall s, lower s = [] -> s = [].
 Proof. destruct s; simpl; auto; discriminate. Qed.
 
-Lemma same_family_dt : forall a b, same_family a b = true -> same_dt a b = true.
-Proof. intros a b H. unfold same_family in H. apply andb_true_iff in H as [H _]. apply andb_true_iff in H as [H _]. exact H. Qed.
-
-Lemma same_family_sym : forall a b, same_family a b = true -> same_family b a = true.
-Proof.
-  intros a b H. unfold same_family in *. apply andb_true_iff in H as [H P2]. apply andb_true_iff in H as [H P1].
-  rewrite P1, P2, !andb_true_r. destruct a, b; try discriminate. cbn [same_dt] in *.
-  apply ostr_eqb_eq in H. subst. apply ostr_eqb_refl.
-Qed.
-
-Lemma fam_is_lt : forall a b, same_dt a b = true -> case_variant a b = false ->
-  is_lt (cmp_of (term_lt a b)) = mlt a b.
-Proof.
-  intros a b F V.
-  destruct a as [s|s|s|lex dt lang], b as [s'|s'|s'|lex' dt' lang']; try discriminate.
-  cbn [same_dt] in F. apply ostr_eqb_eq in F. subst dt'.
-  cbn [term_lt mlt]. unfold lit_gt, lit_eqv.
-  destruct (lit_class lex dt lang) as [|x|] eqn:C1; destruct (lit_class lex' dt lang') as [|y|] eqn:C2;
-    try reflexivity.
-  - (* two strings *)
-    rewrite str_eqb_refl. cbn [negb]. cbv iota.
-    pose proof (class_str_lang _ _ _ C1) as N1. pose proof (class_str_lang _ _ _ C2) as N2.
-    unfold skey_ltb.
-    destruct lang as [l|], lang' as [l'|]; cbn [ostr_eqb olang_ltb lang_or_empty negb andb orb].
-    + cbn [case_variant] in V. destruct (str_eqb l l') eqn:E.
-      * apply str_eqb_eq in E. subst l'. rewrite str_eqb_refl, str_ltb_irrefl. cbn [negb orb andb].
-        cbn [cmp_of]. rewrite <- (str_ltb_neg lex lex').
-        destruct (negb (str_ltb lex' lex) && negb (str_eqb lex lex')); reflexivity.
-      * cbn [negb andb] in V. rewrite V. cbn [negb andb orb]. rewrite andb_true_r, orb_false_r.
-        rewrite <- (str_ltb_neg_ne l l' E). destruct (negb (str_ltb l' l)); reflexivity.
-    + destruct (negb (str_eqb (lower l) (lower []))); reflexivity.
-    + assert (str_eqb (lower []) (lower l') = false) as E.
-      { destruct (str_eqb (lower []) (lower l')) eqn:E; auto. apply str_eqb_eq in E. simpl in E.
-        symmetry in E. apply lower_nil in E. subst l'. exfalso. apply N2. reflexivity. }
-      rewrite E. reflexivity.
-    + cbn [lower map str_eqb negb]. rewrite <- (str_ltb_neg lex lex').
-      destruct (negb (str_ltb lex' lex) && negb (str_eqb lex lex')); reflexivity.
-  - (* a string and an integer cannot share a datatype *)
-    exfalso. apply class_int_dt in C2. destruct (class_str_dt _ _ _ C1) as [E|E]; subst; try discriminate.
-  - exfalso. apply class_int_dt in C1. destruct (class_str_dt _ _ _ C2) as [E|E]; subst; try discriminate.
-  - (* two integers *)
-    cbn [cmp_of]. replace (negb (x >? y)%Z && negb (x =? y)%Z) with (x <? y)%Z.
-    + destruct (x <? y)%Z; reflexivity.
-    + rewrite Z.gtb_ltb. destruct (Z.ltb_spec x y), (Z.ltb_spec y x), (Z.eqb_spec x y); simpl; auto; lia.
-Qed.
-
 Lemma olang_ltb_irrefl : forall a, olang_ltb a a = false.
 Proof. destruct a; simpl; auto using str_ltb_irrefl. Qed.
 
@@ -390,26 +371,11 @@ Qed.
 Lemma skey_ltb_irrefl : forall l x, skey_ltb l x l x = false.
 Proof. intros. unfold skey_ltb. rewrite olang_ltb_irrefl, str_ltb_irrefl, andb_false_r. reflexivity. Qed.
 
-Lemma mlt_trans : forall a b c, mlt a b = true -> mlt b c = true -> mlt a c = true.
+Lemma same_family_sym : forall a b, same_family a b = true -> same_family b a = true.
 Proof.
-  intros a b c H1 H2.
-  destruct a as [s|s|s|lex dt lang], b as [s'|s'|s'|lex' dt' lang'], c as [s''|s''|s''|lex'' dt'' lang'']; try discriminate.
-  cbn [mlt] in *.
-  destruct (lit_class lex dt lang), (lit_class lex' dt' lang'), (lit_class lex'' dt'' lang''); try discriminate.
-  - eauto using skey_ltb_trans.
-  - apply Z.ltb_lt in H1, H2. apply Z.ltb_lt. lia.
-Qed.
-
-Lemma mlt_irrefl : forall a, mlt a a = false.
-Proof.
-  destruct a as [s|s|s|lex dt lang]; auto. cbn [mlt].
-  destruct (lit_class lex dt lang); auto using skey_ltb_irrefl, Z.ltb_irrefl.
-Qed.
-
-Lemma mlt_asym : forall a b, mlt a b && mlt b a = false.
-Proof.
-  intros a b. destruct (mlt a b) eqn:E1; auto. destruct (mlt b a) eqn:E2; auto.
-  pose proof (mlt_trans _ _ _ E1 E2) as X. rewrite mlt_irrefl in X. discriminate.
+  intros a b H. unfold same_family in *. apply andb_true_iff in H as [H P2]. apply andb_true_iff in H as [H P1].
+  rewrite P1, P2, !andb_true_r. destruct a, b; try discriminate. cbn [same_dt] in *.
+  apply ostr_eqb_eq in H. subst. apply ostr_eqb_refl.
 Qed.
 
 Lemma same_family_trans : forall a b c, same_family a b = true -> same_family b c = true -> same_family a c = true.
@@ -421,44 +387,6 @@ Proof.
   apply ostr_eqb_eq in H1, H2. subst. apply ostr_eqb_refl.
 Qed.
 
-Lemma kf_zero : forall c, kf c = 0 ->
-  forall a b, In a (c_terms c) -> In b (c_terms c) -> case_variant a b = false.
-Proof.
-  intros c H a b Ha Hb. unfold kf in H.
-  destruct (existsb decimal_nan (c_terms c)); try discriminate.
-  destruct (1 <? N.of_nat (length (filter ym_duration (c_terms c)))); try discriminate.
-  destruct (existsb (fun a0 => existsb (case_variant a0) (c_terms c)) (c_terms c)) eqn:E; try discriminate.
-  destruct (case_variant a b) eqn:V; auto.
-  assert (existsb (fun a0 => existsb (case_variant a0) (c_terms c)) (c_terms c) = true) as X; [|congruence].
-  apply existsb_exists. exists a. split; auto. apply existsb_exists. exists b. auto.
-Qed.
-
-Lemma family_ok_model : forall c, kf c = 0 ->
-  family_ok (c_terms c) (map (fun a => map (fun b => cmp_of (term_lt a b)) (c_terms c)) (c_terms c)) = true.
-Proof.
-  intros c Hk. pose proof (kf_zero c Hk) as NV. set (ts := c_terms c) in *.
-  assert (forall i, (i < length ts)%nat -> In (nth i ts (IRI [])) ts) as IN by (intros; apply nth_In; assumption).
-  unfold family_ok. apply andb_true_iff. split.
-  - all_idx. all_idx.
-    rewrite (nthd_matrix (fun a b => cmp_of (term_lt a b)) ts i i0 None (IRI [])),
-            (nthd_matrix (fun a b => cmp_of (term_lt a b)) ts i0 i None (IRI [])) by assumption.
-    destruct (same_family (nth i ts (IRI [])) (nth i0 ts (IRI []))) eqn:F; auto. cbn [implb].
-    pose proof (same_family_sym _ _ F) as F'.
-    rewrite (fam_is_lt _ _ (same_family_dt _ _ F)) by auto. rewrite (fam_is_lt _ _ (same_family_dt _ _ F')) by auto.
-    rewrite mlt_asym. reflexivity.
-  - all_idx. all_idx. all_idx.
-    rewrite (nthd_matrix (fun a b => cmp_of (term_lt a b)) ts i i0 None (IRI [])),
-            (nthd_matrix (fun a b => cmp_of (term_lt a b)) ts i0 i1 None (IRI [])),
-            (nthd_matrix (fun a b => cmp_of (term_lt a b)) ts i i1 None (IRI [])) by assumption.
-    destruct (same_family (nth i ts (IRI [])) (nth i0 ts (IRI []))) eqn:F1; auto.
-    destruct (same_family (nth i0 ts (IRI [])) (nth i1 ts (IRI []))) eqn:F2; auto. cbn [andb implb].
-    pose proof (same_family_trans _ _ _ F1 F2) as F3.
-    rewrite (fam_is_lt _ _ (same_family_dt _ _ F1)), (fam_is_lt _ _ (same_family_dt _ _ F2)), (fam_is_lt _ _ (same_family_dt _ _ F3)) by auto.
-    destruct (mlt (nth i ts (IRI [])) (nth i0 ts (IRI []))) eqn:M1; auto.
-    destruct (mlt (nth i0 ts (IRI [])) (nth i1 ts (IRI []))) eqn:M2; auto.
-    rewrite (mlt_trans _ _ _ M1 M2). reflexivity.
-Qed.
-
 Lemma ne_ok_model : forall c, ne_ok c (model_obs c) = true.
 Proof.
   intro c. unfold ne_ok, model_obs. cbn [o_ne o_eq]. set (ts := c_terms c).
@@ -467,11 +395,18 @@ Proof.
   rewrite (nthd_matrix term_eqb ts i i0 false (IRI [])) by assumption. apply eqb_reflx.
 Qed.
 
-Theorem spec_ok_model : forall c, kf c = 0 -> spec_ok c (model_obs c) = true.
+Lemma ops_ok_model : forall c, ops_ok c (model_obs c) = true.
 Proof.
-  intros c Hk. unfold spec_ok. rewrite (spec_base_model c Hk), ne_ok_model, andb_true_r. cbn [andb].
-  unfold model_obs. cbn [o_lt]. apply family_ok_model. exact Hk.
+  intro c. unfold ops_ok, model_obs. cbn [o_gt o_le o_ge]. set (ts := c_terms c).
+  rewrite !shape_matrix. cbn [andb]. all_idx. all_idx.
+  rewrite (nthd_matrix (fun a b => cmp_of (term_gt a b)) ts i i0 None (IRI [])) by assumption.
+  rewrite (nthd_matrix (fun a b => cmp_of (term_le a b)) ts i i0 None (IRI [])) by assumption.
+  rewrite (nthd_matrix (fun a b => cmp_of (term_ge a b)) ts i i0 None (IRI [])) by assumption.
+  destruct (ops_entry_model (nth i ts (IRI [])) (nth i0 ts (IRI []))) as [A [B C]].
+  rewrite A, B, C. reflexivity.
 Qed.
+
+
 
 (* ------------------------------------------------------------------ *)
 (* text suite *)
@@ -528,21 +463,15 @@ Lemma same_kind_order : forall a b, kind_of a = kind_of b -> kind_of a <> KL ->
   term_lt a b = Some (str_ltb (term_str a) (term_str b)).
 Proof. intros a b H1 H2. destruct a, b; simpl in *; try congruence. Qed.
 
-Definition modelled (t : term) : bool :=
-  match t with
-  | Lit lex dt lang => match lit_class lex dt lang with COther => false | _ => true end
-  | _ => true
-  end.
-
 Lemma lt_defined : forall a b, modelled a = true -> modelled b = true -> term_lt a b <> None.
 Proof.
   intros a b Ha Hb.
   destruct a as [s|s|s|lex dt lang], b as [s'|s'|s'|lex' dt' lang']; cbn [term_lt]; try discriminate;
     try (destruct (kind_eqb _ _); discriminate).
-  cbn [modelled] in Ha, Hb. unfold lit_gt, lit_eqv.
+  cbn [modelled] in Ha, Hb. unfold lit_gt.
   destruct (lit_class lex dt lang), (lit_class lex' dt' lang'); try discriminate;
     repeat match goal with |- context [if ?x then _ else _] => destruct x end; try discriminate;
-    destruct lang, lang'; discriminate.
+    destruct (lang_key lang), (lang_key lang'); discriminate.
 Qed.
 
 (* ------------------------------------------------------------------ *)
@@ -584,7 +513,7 @@ Lemma spec_ok_reads : forall c o, spec_ok c o = true ->
     (* the order between kinds and inside a kind is the required one; two literals never raise *)
     /\ lt_entry_ok a b (nthd (o_lt o) i j None) = true.
 Proof.
-  intros c o H ts i j Hi Hj a b. unfold spec_ok in H. apply andb_true_iff in H as [H _]. apply andb_true_iff in H as [H _]. unfold spec_base in H. fold ts in H.
+  intros c o H ts i j Hi Hj a b. unfold spec_ok in H. apply andb_true_iff in H as [H _]. apply andb_true_iff in H as [H _]. apply andb_true_iff in H as [H _]. apply andb_true_iff in H as [H _]. unfold spec_base in H. fold ts in H.
   repeat (apply andb_true_iff in H as [H ?]).
   repeat split.
   - pose proof (forallb_idx ts _ H6 i Hi) as X. cbv beta in X.
@@ -606,7 +535,7 @@ Lemma spec_ok_family_reads : forall c o, spec_ok c o = true ->
     ~ (lt i j /\ lt j i)
     /\ (same_family (t j) (t k) = true -> lt i j -> lt j k -> lt i k).
 Proof.
-  intros c o H ts t lt i j k Hi Hj Hk F. unfold spec_ok in H. apply andb_true_iff in H as [H _]. apply andb_true_iff in H as [_ H].
+  intros c o H ts t lt i j k Hi Hj Hk F. unfold spec_ok in H. apply andb_true_iff in H as [H _]. apply andb_true_iff in H as [H _]. apply andb_true_iff in H as [H _]. apply andb_true_iff in H as [_ H].
   unfold family_ok in H. fold ts in H. apply andb_true_iff in H as [H1 H2]. unfold lt. split.
   - intros [A B].
     pose proof (forallb_idx ts _ H1 i Hi) as X. cbv beta in X.
@@ -625,8 +554,24 @@ Lemma spec_ok_ne_reads : forall c o, spec_ok c o = true ->
   forall i j, (i < length (c_terms c))%nat -> (j < length (c_terms c))%nat ->
     nthd (o_ne o) i j false = negb (nthd (o_eq o) i j false).
 Proof.
-  intros c o H i j Hi Hj. unfold spec_ok in H. apply andb_true_iff in H as [_ H]. unfold ne_ok in H.
+  intros c o H i j Hi Hj. unfold spec_ok in H. apply andb_true_iff in H as [H _]. apply andb_true_iff in H as [H _]. apply andb_true_iff in H as [_ H]. unfold ne_ok in H.
   apply andb_true_iff in H as [_ H].
   pose proof (forallb_idx (c_terms c) _ H i Hi) as X. cbv beta in X.
   pose proof (forallb_idx (c_terms c) _ X j Hj) as Y. cbv beta in Y. apply eqb_prop in Y. exact Y.
+Qed.
+
+(* > <= >= on the observed matrices *)
+Lemma spec_ok_ops_reads : forall c o, spec_ok c o = true ->
+  let ts := c_terms c in
+  forall i j, (i < length ts)%nat -> (j < length ts)%nat ->
+    let a := nth i ts (IRI []) in let b := nth j ts (IRI []) in
+    op_entry_ok (lt_required b a) (nthd (o_gt o) i j None) = true
+    /\ op_entry_lax (option_map (fun v => v || key_same a b) (lt_required a b)) (nthd (o_le o) i j None) = true
+    /\ op_entry_lax (option_map (fun v => v || key_same a b) (lt_required b a)) (nthd (o_ge o) i j None) = true.
+Proof.
+  intros c o H ts i j Hi Hj a b. unfold spec_ok in H. apply andb_true_iff in H as [_ H]. unfold ops_ok in H.
+  fold ts in H. apply andb_true_iff in H as [_ H].
+  pose proof (forallb_idx ts _ H i Hi) as X. cbv beta in X.
+  pose proof (forallb_idx ts _ X j Hj) as Y. cbv beta zeta in Y.
+  apply andb_true_iff in Y as [Y Y3]. apply andb_true_iff in Y as [Y1 Y2]. auto.
 Qed.
